@@ -724,6 +724,7 @@ func checkC11(c *Ctx) {
 		"real Pointerify + env.Source.Value vs Lean model (translated field list with names and tags, variable names, value) and vs the documentation oracle. non-trivial: >= 2 variables set and a nested struct or tag; distinct = by request text"
 	n := c.scale(1500, 50000)
 	c11Boundaries(c)
+	c11Nameless(c)
 	for i := 0; i < n; i++ {
 		g := &envTypeGen{r: r, used: map[string]bool{}, emptyTags: true}
 		T := g.genStruct(1+r.Intn(3), nil, nil)
